@@ -288,7 +288,9 @@ def finish(ctx, search=None, extra_assumptions=(), technique=""):
 def theorem_stage(ctx):
     """Build the development and re-check this property's theorem file.
     A failure here is 'theorem broken' and becomes a violation."""
-    ok, log = coq_make()
+    # build only what this property's theorem file needs (a broken file of another property must not
+    # raise an alarm here); `./check setup` builds everything
+    ok, log = coq_make(["Props/Properties_%s.vo" % ctx.pid])
     if not ok:
         ctx.fail("theorem", "make", log[-1500:], site="coq-build", fingerprint="make")
         return False
